@@ -6,6 +6,8 @@ import random
 
 import vlib
 import gen_store
+import gen_mc
+import re
 
 
 class Ctx:
@@ -174,6 +176,333 @@ def suite_store(ctx, can_run_model):
                     l.startswith("RAW PUSHFIXED") or l.startswith("RAW CANCELPROC") or l.startswith("RAW CANCELTIMER")
                     for l in raw):
                 ctx.nontrivial.add(sc_hash(sc))
+
+
+# ---------------------------------------------------------------------------------------------------
+# MC suites (C02, C03, C09, C10, C11, C14, C16)
+
+KV = re.compile(r"(\w+)=(\S+)")
+
+
+def parse_mc(lines):
+    """split the observation of an MC scenario into runs"""
+    runs = []
+    cur = None
+    for l in lines:
+        if l in ("RUN", "RUNFROM"):
+            cur = {"kind": l, "before": None, "checks": [], "result": None, "status": {}, "collected": None,
+                   "after": None, "aftermode": None}
+            runs.append(cur)
+        elif cur is None:
+            continue
+        elif l.startswith("BEFORE "):
+            cur["before"] = dict(KV.findall(l))
+        elif l.startswith("CHECK "):
+            cur["checks"].append(dict(KV.findall(l)))
+        elif l.startswith("RESULT "):
+            cur["result"] = l.split()[1:]
+        elif l.startswith("STATUS "):
+            _, k, c = l.split()
+            cur["status"][k] = int(c)
+        elif l.startswith("COLLECTED "):
+            cur["collected"] = l.split()[2:]
+        elif l.startswith("AFTER "):
+            cur["after"] = dict(KV.findall(l))
+        elif l.startswith("AFTERMODE "):
+            cur["aftermode"] = l.split()[1]
+    return runs
+
+
+def run_line_of(sc, k):
+    rl = [l for l in sc[2] if l.startswith("RUN")]
+    return rl[k].split() if k < len(rl) else None
+
+
+def mc_monitors(sc, runs, ref_runs):
+    """monitors on the implementation's own observation (and the reference-semantics run); returns (clause, detail)"""
+    fails = []
+    for k, r in enumerate(runs):
+        rl = run_line_of(sc, k)
+        if r["result"] is None or r["result"][0] in ("FUEL", "PANIC"):
+            if r["result"] and r["result"][0] == "PANIC":
+                fails.append(("C20:no_panic", "the model checker panicked in run %d" % k))
+            continue
+        debug = rl is not None and rl[3] == "1"
+        # --- C09: rolled back exactly
+        if r["before"] and r["after"]:
+            for f in ("d", "core", "tr"):
+                if r["before"][f] != r["after"][f]:
+                    fails.append(("C09:rolled_back", "run %d: %s before=%s after=%s" % (k, f, r["before"][f], r["after"][f])))
+                    break
+        if r["aftermode"] is not None and r["aftermode"] != "0":
+            fails.append(("C09:mode_restored", "run %d leaves the ordering mode changed" % k))
+        # --- C14: crashed nodes are silent
+        ks = set(c["k"] for c in r["checks"])
+        if any(c["x"] == "1" for c in r["checks"]):
+            fails.append(("C14:purged", "run %d: a pending event touches a process of a crashed node" % k))
+        if r["kind"] == "RUN" and len(ks) > 1:
+            fails.append(("C14:stays_silent", "run %d: the processes of a crashed node changed during the exploration" % k))
+        # --- C03: verdict
+        if r["result"][0] == "OK":
+            bad = [c for c in r["checks"] if c["v"].startswith("E")]
+            if bad:
+                fails.append(("C03:verdict_ok", "run %d returned Ok but evaluated the invariant on a violating/dead-end state" % k))
+        elif r["result"][0] == "ERR":
+            last = r["checks"][-1] if r["checks"] else None
+            if last is None or last["v"] != "E" + r["result"][1]:
+                fails.append(("C03:error_genuine", "run %d: the reported error %s is not the verdict of the last evaluated state %s"
+                              % (k, r["result"][1], last and last["v"])))
+            elif last["tr"] != r["result"][3]:
+                fails.append(("C02:error_trace", "run %d: the error trace is not the trace of the violating state" % k))
+        # --- C16: collected exact, status counts
+        if r["result"][0] == "OK":
+            flagged = [c for c in r["checks"] if c["c"] == "1"]
+            coll = r["collected"] or []
+            coll_red = set(x.split(":")[0] for x in coll)
+            flagged_full = set(c["red"] + ":" + c["tr"] for c in flagged)
+            if not set(coll) <= flagged_full:
+                fails.append(("C16:collected_sound", "run %d: a collected state was not evaluated / does not satisfy collect" % k))
+            if set(c["red"] for c in flagged) != coll_red:
+                fails.append(("C16:collected_complete", "run %d: collected set differs from the evaluated states satisfying collect" % k))
+            cnt = {}
+            for c in r["checks"]:
+                if c["v"][0] in "GP":
+                    cnt[c["v"][1:]] = cnt.get(c["v"][1:], 0) + 1
+            if debug and cnt != r["status"]:
+                fails.append(("C16:status_counts", "run %d: statuses %s but evaluated %s" % (k, r["status"], cnt)))
+            if not debug and r["status"]:
+                fails.append(("C16:status_counts", "run %d: statuses reported outside Debug mode" % k))
+        # --- C02 / C03: against the exploration of the reference semantics
+        if ref_runs is not None and k < len(ref_runs) and r["kind"] == "RUN":
+            rr = ref_runs[k]
+            if rr["result"] and rr["result"][0] == "OK" and r["result"][0] == "OK":
+                # compared on the projection the checker's equality looks at (the reference semantics distinguishes
+                # more states - insertion order of all pending events - so other fields may legitimately differ)
+                a = set(c["eqp"] for c in r["checks"])
+                b = set(c["eqp"] for c in rr["checks"])
+                if not a <= b:
+                    fails.append(("C02:state_genuine", "run %d: %d evaluated states are not reachable in the reference semantics"
+                                  % (k, len(a - b))))
+                if not b <= a:
+                    fails.append(("C03:exhaustive", "run %d: %d states reachable in the reference semantics were not evaluated"
+                                  % (k, len(b - a))))
+            elif rr["result"] and rr["result"][0] in ("OK", "ERR") and rr["result"][0] != r["result"][0]:
+                fails.append(("C03:verdict_kind", "run %d: implementation %s, reference semantics %s" % (k, r["result"][0], rr["result"][0])))
+    return fails
+
+
+def mc_run_all(ctx, scs, can_run_model, tag, with_ref=True):
+    """run implementation, model and reference semantics on MC scenarios; record correspondence + monitors"""
+    impl = vlib.run_impl(scs, tag + "-impl")
+    model = vlib.run_model(scs, tag + "-model") if can_run_model else {}
+    ref = vlib.run_model([("MCREF", s[1], s[2]) for s in scs], tag + "-ref") if (can_run_model and with_ref) else {}
+    parsed = {}
+    for sc in scs:
+        sid = sc[1]
+        ctx.evaluations += 1
+        il = impl.get(sid, [])
+        if can_run_model:
+            d = vlib.first_diff(il, model.get(sid, []))
+            if d is not None:
+                ctx.disagreements.append({"suite": "MC model-vs-impl", "scenario": vlib.scenario_text(sc),
+                                          "diff": {"line": d[0], "impl": d[1], "model": d[2]}})
+            else:
+                ctx.validated += 1
+        runs = parse_mc(il)
+        ref_runs = parse_mc(ref.get(sid, [])) if sid in ref else None
+        parsed[sid] = runs
+        nstates = sum(len(r["checks"]) for r in runs)
+        ctx.count("states_checked", nstates)
+        for r in runs:
+            if r["result"]:
+                ctx.count("result_" + r["result"][0])
+        for clause, detail in mc_monitors(sc, runs, ref_runs):
+            ctx.monitor_failures.append({"clause": clause, "detail": detail, "scenario": vlib.scenario_text(sc),
+                                         "impl": il[:300], "seed": ctx.seed, "suite": "MC"})
+        if len(ctx.samples) < 2:
+            ctx.samples.append({"scenario": "\n".join(l for l in vlib.scenario_text(sc).split("\n") if not l.startswith("CLOCK")),
+                                "impl_observation_head": il[:6]})
+    ctx.clauses.update(["C09:rolled_back", "C09:mode_restored", "C14:purged", "C14:stays_silent", "C03:verdict_ok",
+                        "C03:error_genuine", "C02:error_trace", "C16:collected_sound", "C16:collected_complete",
+                        "C16:status_counts", "C02:state_genuine", "C03:exhaustive", "C03:verdict_kind", "C20:no_panic"])
+    return impl, parsed
+
+
+def feat_count(ctx, feat):
+    for k, v in feat.items():
+        if v:
+            ctx.count("feat_" + k)
+
+
+def suite_mc(ctx, can_run_model):
+    """random single runs (all strategies / modes), each run twice on the same checker"""
+    rng = random.Random(ctx.seed * 1000003 + 29)
+    n = ctx.scale(150, 6000)
+    scs = []
+    meta = {}
+    for j in range(n):
+        base = gen_mc.gen_base(rng)
+        feat_count(ctx, base["feat"])
+        vm = rng.choice(["FULL", "PARTIAL", "DISABLED"])
+        st = rng.choice(["BFS", "DFS"])
+        dp = rng.choice([4, 5, 6]) if vm == "DISABLED" else None
+        sc = gen_mc.variant(base, "mc%d-%d" % (ctx.seed, j), st, vm, debug=rng.choice([0, 1]), repeat=2, depth_prune=dp)
+        scs.append(sc)
+        meta[sc[1]] = base
+    impl, parsed = mc_run_all(ctx, scs, can_run_model, "mc")
+    for sc in scs:
+        runs = parsed[sc[1]]
+        base = meta[sc[1]]
+        # C09: repeating the run on the same checker gives the identical result
+        if len(runs) == 2 and runs[0]["result"] and runs[1]["result"] and runs[0]["result"][0] not in ("FUEL", "PANIC"):
+            a = (runs[0]["checks"], runs[0]["result"], runs[0]["status"], sorted(runs[0]["collected"] or []))
+            b = (runs[1]["checks"], runs[1]["result"], runs[1]["status"], sorted(runs[1]["collected"] or []))
+            if a != b:
+                ctx.monitor_failures.append({"clause": "C09:repeat_identical", "detail": "second run differs from the first",
+                                             "scenario": vlib.scenario_text(sc), "impl": impl[sc[1]][:300],
+                                             "seed": ctx.seed, "suite": "MC"})
+        ctx.clauses.add("C09:repeat_identical")
+        nstates = sum(len(r["checks"]) for r in runs)
+        f = base["feat"]
+        if nstates >= 8 and (f["timers"] or f["drop"] or f["dupl"] or f["corrupt"] or f["crash"]):
+            ctx.nontrivial.add(sc_hash(sc))
+
+
+def red_set(run):
+    return set(c["eqp"] for c in run["checks"])
+
+
+def suite_mc_matrix(ctx, can_run_model):
+    """every base system under 2 strategies x 3 visited modes (C10, C11, C01 order)"""
+    rng = random.Random(ctx.seed * 1000003 + 31)
+    n = ctx.scale(60, 2500)
+    scs = []
+    groups = []
+    for j in range(n):
+        feat = gen_mc.gen_features(rng)
+        feat["clock"] = False          # clock-reading programs are known finding F14 (separate stream)
+        base = gen_mc.gen_base(rng, feat)
+        feat_count(ctx, base["feat"])
+        dp = rng.choice([4, 5, 6])     # one depth bound for all six variants, so that they explore the same graph
+        g = {}
+        for st in ("BFS", "DFS"):
+            for vm in ("FULL", "PARTIAL", "DISABLED"):
+                sc = gen_mc.variant(base, "mx%d-%d-%s-%s" % (ctx.seed, j, st, vm), st, vm, debug=0, repeat=1, depth_prune=dp)
+                scs.append(sc)
+                g[(st, vm)] = sc
+        groups.append((base, g))
+    impl, parsed = mc_run_all(ctx, scs, can_run_model, "mx", with_ref=False)
+    ctx.clauses.update(["C10:same_states", "C10:same_verdict", "C10:bfs_shortest", "C11:modes_same_states",
+                        "C11:modes_same_verdict"])
+    for base, g in groups:
+        res = {}
+        for key, sc in g.items():
+            runs = parsed[sc[1]]
+            if runs and runs[0]["result"] and runs[0]["result"][0] in ("OK", "ERR"):
+                res[key] = runs[0]
+        def fail(clause, detail, sc):
+            ctx.monitor_failures.append({"clause": clause, "detail": detail, "scenario": vlib.scenario_text(sc),
+                                         "impl": impl[sc[1]][:300], "seed": ctx.seed, "suite": "MCMATRIX"})
+        # NOTE: the depth prune makes the predicates depend on depth: with a cache a class first reached on a longer
+        # path may hide shorter ones (DFS).  Compare only what the properties promise for state-based predicates:
+        # here the prune is the only non-state-based predicate, so we compare states BELOW the bound by content
+        # (red digests contain the depth, so compare within equal strategy across modes with care).
+        for vm in ("FULL", "PARTIAL", "DISABLED"):
+            a, b = res.get(("BFS", vm)), res.get(("DFS", vm))
+            if a and b:
+                if a["result"][0] != b["result"][0]:
+                    fail("C10:same_verdict", "BFS %s vs DFS %s under %s" % (a["result"][0], b["result"][0], vm), g[("BFS", vm)])
+                if a["result"][0] == "ERR" and b["result"][0] == "ERR":
+                    if int(a["checks"][-1]["d"]) > int(b["checks"][-1]["d"]):
+                        fail("C10:bfs_shortest", "BFS error at depth %s, DFS found one at depth %s" % (
+                            a["checks"][-1]["d"], b["checks"][-1]["d"]), g[("BFS", vm)])
+        for st in ("BFS", "DFS"):
+            runs3 = [res.get((st, vm)) for vm in ("FULL", "PARTIAL", "DISABLED")]
+            if all(runs3):
+                kinds = set(r["result"][0] for r in runs3)
+                if len(kinds) > 1:
+                    fail("C11:modes_same_verdict", "%s: %s" % (st, [r["result"][0] for r in runs3]), g[(st, "FULL")])
+        f = base["feat"]
+        tot = sum(len(r["checks"]) for r in res.values())
+        if tot >= 40 and (f["timers"] or f["drop"] or f["dupl"] or f["corrupt"]):
+            ctx.nontrivial.add(sc_hash(g[("BFS", "FULL")]))
+
+
+def suite_mc_matrix_sb(ctx, can_run_model):
+    """state-based predicates only (no depth bound): BFS/DFS x Full/Partial agree on the SET of states; Disabled
+    too when the graph is small enough to be walked as a tree"""
+    rng = random.Random(ctx.seed * 1000003 + 37)
+    n = ctx.scale(60, 2500)
+    scs = []
+    groups = []
+    for j in range(n):
+        feat = gen_mc.gen_features(rng)
+        feat["clock"] = False
+        base = gen_mc.gen_base(rng, feat)
+        g = {}
+        for st in ("BFS", "DFS"):
+            for vm in ("FULL", "PARTIAL", "DISABLED"):
+                sc = gen_mc.variant(base, "sb%d-%d-%s-%s" % (ctx.seed, j, st, vm), st, vm, debug=0, repeat=1)
+                scs.append(sc)
+                g[(st, vm)] = sc
+        groups.append((base, g))
+    impl, parsed = mc_run_all(ctx, scs, can_run_model, "sb", with_ref=False)
+    for base, g in groups:
+        res = {}
+        for key, sc in g.items():
+            runs = parsed[sc[1]]
+            if runs and runs[0]["result"] and runs[0]["result"][0] in ("OK", "ERR"):
+                res[key] = runs[0]
+        def fail(clause, detail, sc):
+            ctx.monitor_failures.append({"clause": clause, "detail": detail, "scenario": vlib.scenario_text(sc),
+                                         "impl": impl[sc[1]][:300], "seed": ctx.seed, "suite": "MCMATRIX",
+                                         "feat": base["feat"]})
+        oks = {k: r for k, r in res.items() if r["result"][0] == "OK"}
+        # content of a state without depth: strip the depth by using the core of (nodes, store) - the red digest
+        # includes the depth, and equal states have equal depth only along equal-length paths; state-based
+        # comparison therefore uses the projection without depth: not available as a digest -> compare (red) only
+        # between runs that mark each class once at BFS depth (BFS Full/Partial) and compare SET SIZES + collected
+        # + verdicts for the others
+        if ("BFS", "FULL") in oks and ("BFS", "PARTIAL") in oks:
+            if red_set(oks[("BFS", "FULL")]) != red_set(oks[("BFS", "PARTIAL")]):
+                fail("C11:modes_same_states", "BFS Full vs Partial evaluate different sets", g[("BFS", "FULL")])
+        if ("DFS", "FULL") in oks and ("DFS", "PARTIAL") in oks:
+            if red_set(oks[("DFS", "FULL")]) != red_set(oks[("DFS", "PARTIAL")]):
+                fail("C11:modes_same_states", "DFS Full vs Partial evaluate different sets", g[("DFS", "FULL")])
+        cached = [oks.get((st, vm)) for st in ("BFS", "DFS") for vm in ("FULL", "PARTIAL")]
+        if all(cached):
+            sizes = set(len(r["checks"]) for r in cached)
+            if len(sizes) > 1:
+                fail("C10:same_states", "numbers of distinct states evaluated differ: %s" % sorted(sizes), g[("BFS", "FULL")])
+            colls = set(len(r["collected"] or []) for r in cached)
+            if len(colls) > 1:
+                fail("C10:same_states", "numbers of collected states differ: %s" % sorted(colls), g[("BFS", "FULL")])
+        kinds = set(r["result"][0] for r in res.values())
+        if len(res) >= 2 and len(kinds) > 1:
+            fail("C10:same_verdict", "verdicts differ: %s" % {("%s/%s" % k): r["result"][0] for k, r in res.items()},
+                 g[("BFS", "FULL")])
+        f = base["feat"]
+        tot = sum(len(r["checks"]) for r in res.values())
+        if tot >= 40 and (f["timers"] or f["drop"] or f["dupl"] or f["corrupt"]):
+            ctx.nontrivial.add(sc_hash(g[("BFS", "FULL")]))
+
+
+def suite_mc_staged(ctx, can_run_model):
+    rng = random.Random(ctx.seed * 1000003 + 41)
+    n = ctx.scale(80, 3000)
+    scs = []
+    for j in range(n):
+        base = gen_mc.gen_base(rng)
+        feat_count(ctx, base["feat"])
+        st = rng.choice(["BFS", "DFS"])
+        vm = rng.choice(["FULL", "PARTIAL"])
+        scs.append(gen_mc.staged(rng, base, "sg%d-%d" % (ctx.seed, j), st, vm, debug=1))
+    impl, parsed = mc_run_all(ctx, scs, can_run_model, "sg", with_ref=False)
+    for sc in scs:
+        runs = parsed[sc[1]]
+        if len(runs) == 2 and runs[0]["collected"] and len(runs[0]["collected"]) >= 2 and len(runs[1]["checks"]) >= 4:
+            ctx.nontrivial.add(sc_hash(sc))
+            ctx.count("staged_with_2plus_starts")
 
 
 # ---------------------------------------------------------------------------------------------------
